@@ -76,7 +76,7 @@ class C01(E1Check):
         return cfgs + wide + extra
 
     def budget(self):
-        return 600 if self.tier == "quick" else 2400
+        return 600 if self.tier == "quick" else 1200
 
     def op_list(self, cfg):
         return std_ops(self.alpha, cfg, self.tier)
